@@ -260,6 +260,16 @@ impl LruManager {
             crate::StorageError::Cache(format!("invalid LRU file: {}", path.display()))
         })?;
 
+        // The MD5 only says the file is the one that was written: the list
+        // operations index `entries` with the stored links and follow `next`
+        // until the sentinel, so the links themselves have to be checked
+        if !links_are_valid(&header, &entries) {
+            return Err(crate::StorageError::Cache(format!(
+                "invalid LRU file (broken list links): {}",
+                path.display()
+            )));
+        }
+
         // Rebuild the key map and free list
         self.header = header;
         self.key_map.clear();
@@ -505,6 +515,30 @@ impl LruManager {
 
         self.header.mru_head = idx;
     }
+}
+
+/// Check the links of a loaded table: every head/tail/prev/next is the
+/// sentinel or an index into `entries`, and following `next` from the LRU
+/// tail reaches the sentinel (no cycle).
+fn links_are_valid(header: &LruFileHeader, entries: &[LruFileEntry]) -> bool {
+    let in_range = |idx: u32| idx == LRU_SENTINEL || (idx as usize) < entries.len();
+
+    if !in_range(header.mru_head) || !in_range(header.lru_tail) {
+        return false;
+    }
+    if !entries.iter().all(|e| in_range(e.prev) && in_range(e.next)) {
+        return false;
+    }
+
+    // An acyclic chain visits each entry at most once
+    let mut idx = header.lru_tail;
+    for _ in 0..entries.len() {
+        if idx == LRU_SENTINEL {
+            return true;
+        }
+        idx = entries[idx as usize].next;
+    }
+    idx == LRU_SENTINEL
 }
 
 /// Statistics from a single LRU maintenance cycle.
